@@ -29,6 +29,16 @@ pub(crate) enum ResolvedRanges {
     Satisfiable(SmallVec<[Range<u64>; 1]>),
 }
 
+/// Parses a `first-byte-pos`, `last-byte-pos` or `suffix-length`: `1*DIGIT`.
+///
+/// Unlike `u64::from_str`, doesn't accept a leading `+`.
+fn parse_pos(s: &str) -> Result<u64, ()> {
+    if !s.bytes().all(|b| b.is_ascii_digit()) {
+        return Err(());
+    }
+    u64::from_str(s).map_err(|_| ())
+}
+
 /// Parses the byte-range-set in the range header as described in [RFC 7233 section
 /// 2.1](https://tools.ietf.org/html/rfc7233#section-2.1).
 pub(crate) fn parse(range: Option<&HeaderValue>, len: u64) -> ResolvedRanges {
@@ -57,7 +67,7 @@ pub(crate) fn parse(range: Option<&HeaderValue>, len: u64) -> ResolvedRanges {
         };
         if hyphen == 0 {
             // It's a suffix-byte-range-spec.
-            let last = match u64::from_str(&r[1..]) {
+            let last = match parse_pos(&r[1..]) {
                 Err(_) => return ResolvedRanges::None, // unparseable
                 Ok(l) => l,
             };
@@ -69,13 +79,13 @@ pub(crate) fn parse(range: Option<&HeaderValue>, len: u64) -> ResolvedRanges {
             }
             ranges.push((len - last)..len);
         } else {
-            let first = match u64::from_str(&r[0..hyphen]) {
+            let first = match parse_pos(&r[0..hyphen]) {
                 Err(_) => return ResolvedRanges::None, // unparseable
                 Ok(f) => f,
             };
             let end = if r.len() > hyphen + 1 {
                 cmp::min(
-                    match u64::from_str(&r[hyphen + 1..]) {
+                    match parse_pos(&r[hyphen + 1..]) {
                         Err(_) => return ResolvedRanges::None, // unparseable
                         Ok(l) => l,
                     }
